@@ -164,7 +164,10 @@ loop:
 	os.Exit(0)
 }
 
-func dumpBuffers(d *driver.Driver, res *Result, names map[uint64]string) {
+// dumpBuffers reads every live buffer of every context back. reader maps a
+// context to the context the read-back is issued through (nil / missing: the
+// owning context).
+func dumpBuffers(d *driver.Driver, res *Result, names map[uint64]string, reader map[*driver.Context]*driver.Context) {
 	phase.Store("dump")
 	idx := 0
 	for ci, ctx := range d.VerifContexts() {
@@ -172,8 +175,12 @@ func dumpBuffers(d *driver.Driver, res *Result, names map[uint64]string) {
 			if b.Freed || b.Size == 0 {
 				continue
 			}
+			via := ctx
+			if r := reader[ctx]; r != nil {
+				via = r
+			}
 			data := make([]byte, b.Size)
-			d.MemCopyD2H(ctx, data, b.Ptr)
+			d.MemCopyD2H(via, data, b.Ptr)
 			progress.Add(1)
 			sum := sha256.Sum256(data)
 			bd := BufDump{Idx: idx, Ctx: ci, Ptr: uint64(b.Ptr), Size: b.Size, SHA: hex.EncodeToString(sum[:8]), Name: names[uint64(b.Ptr)]}
@@ -193,20 +200,45 @@ func runGenerated(p *plat.Platform, cs *Case, res *Result) {
 		return
 	}
 	d := p.Driver
-	ctx := d.Init()
 	names := map[uint64]string{}
+	reader := map[*driver.Context]*driver.Context{}
+	nproc := 1
+	if prog.Host == "host_2proc" {
+		nproc = 2
+	}
+	for pi := 0; pi < nproc; pi++ {
+		h := makeHost(d, prog)
+		reader[h.alloc] = h.down
+		runProcess(d, cs, prog, res, h, names, pi)
+	}
+	res.Features = prog.features()
+	res.Motifs = prog.Motifs
+	dumpBuffers(d, res, names, reader)
+	sort.Strings(res.Features)
+}
+
+// runProcess runs the host program of one process: allocate, upload, launch
+// the kernels one after the other.
+func runProcess(d *driver.Driver, cs *Case, prog *Program, res *Result, h hostCtx, names map[uint64]string, pi int) {
+	// every process has its own input data (same virtual addresses, different
+	// contents: what one process must never see of the other)
 	dataR := vlib.NewPRNG(cs.Prog.Seed).Fork("data")
+	if pi > 0 {
+		dataR = vlib.NewPRNG(cs.Prog.Seed).ForkN("data/process", pi)
+	}
 	inData := make([]byte, prog.InSize)
 	dataR.Bytes(inData)
 	tabData := make([]byte, prog.TabSize)
 	dataR.Bytes(tabData)
 	phase.Store("alloc")
-	d.SelectGPU(ctx, 1)
-	in := d.AllocateMemory(ctx, uint64(len(inData)))
-	tab := d.AllocateMemory(ctx, uint64(len(tabData)))
+	for _, c := range []*driver.Context{h.alloc, h.up, h.down} {
+		d.SelectGPU(c, 1)
+	}
+	in := d.AllocateMemory(h.alloc, uint64(len(inData)))
+	tab := d.AllocateMemory(h.alloc, uint64(len(tabData)))
 	names[uint64(in)], names[uint64(tab)] = "IN", "TAB"
-	d.MemCopyH2D(ctx, in, inData)
-	d.MemCopyH2D(ctx, tab, tabData)
+	d.MemCopyH2D(h.up, in, inData)
+	d.MemCopyH2D(h.up, tab, tabData)
 	progress.Add(1)
 	var outs []driver.Ptr
 	for i, k := range prog.Kernels {
@@ -215,12 +247,12 @@ func runGenerated(p *plat.Platform, cs *Case, res *Result) {
 			continue
 		}
 		size := k.L.slots() * k.OStr
-		o := d.AllocateMemory(ctx, uint64(size))
+		o := d.AllocateMemory(h.alloc, uint64(size))
 		fill := make([]byte, size)
 		for j := range fill {
 			fill[j] = 0xA5
 		}
-		d.MemCopyH2D(ctx, o, fill)
+		d.MemCopyH2D(h.up, o, fill)
 		names[uint64(o)] = fmt.Sprintf("OUT%d", i)
 		outs = append(outs, o)
 		progress.Add(1)
@@ -241,16 +273,17 @@ func runGenerated(p *plat.Platform, cs *Case, res *Result) {
 				binary.LittleEndian.PutUint64(tabData[pt.Off+8*i:], base+uint64(pt.Add+pt.Stride*int64(i)))
 			}
 		}
-		d.MemCopyH2D(ctx, tab, tabData)
+		d.MemCopyH2D(h.up, tab, tabData)
 		progress.Add(1)
 	}
-	res.Motifs = prog.Motifs
+	use := 1
 	if cs.Plat.UseGPU > 1 {
-		d.SelectGPU(ctx, cs.Plat.UseGPU)
+		use = cs.Plat.UseGPU
 	}
-	q := d.CreateCommandQueue(ctx)
+	d.SelectGPU(h.launch, use)
+	q := d.CreateCommandQueue(h.launch)
 	for i, k := range prog.Kernels {
-		phase.Store(fmt.Sprintf("kernel%d", i))
+		phase.Store(fmt.Sprintf("p%d-kernel%d", pi, i))
 		args := Args{Out: outs[i], In: in, Tab: tab, C: k.Consts}
 		if k.InFrom >= 0 {
 			args.In = outs[k.InFrom]
@@ -259,8 +292,18 @@ func runGenerated(p *plat.Platform, cs *Case, res *Result) {
 		d.DrainCommandQueue(q)
 		progress.Add(1)
 		res.KernelInfo = append(res.KernelInfo, map[string]any{"launch": k.L, "insts": k.NInst, "mem_insts": k.NMem, "features": k.Feat})
+		if i == prog.ReupAfter && i+1 < len(prog.Kernels) {
+			// re-upload with new data through the copying context: the first
+			// half of the finished kernel's OUT buffer (the next kernel's input)
+			// and the random area of TAB (every kernel's scalar / table loads)
+			reR := vlib.NewPRNG(cs.Prog.Seed).Fork("reup")
+			half := make([]byte, (k.L.slots()*k.OStr/2)&^3)
+			reR.Bytes(half)
+			d.MemCopyH2D(h.up, outs[i], half)
+			area := make([]byte, tabColdOff)
+			reR.Bytes(area)
+			d.MemCopyH2D(h.up, tab, area)
+			progress.Add(1)
+		}
 	}
-	res.Features = prog.features()
-	dumpBuffers(d, res, names)
-	sort.Strings(res.Features)
 }
